@@ -280,13 +280,33 @@ class ISD(model.Document):
       single_regions_docs.append(doc)
 
 
+    # in the absence of regions, the default region is always active and is painted if the initial values
+    # of the document give it a visible background
+
+    default_region_has_background = False
+
+    if len(doc_regions) == 0:
+      default_region = model.Region(ISD.DEFAULT_REGION_ID, doc)
+      for style_prop in (
+        styles.StyleProperties.BackgroundColor,
+        styles.StyleProperties.Display,
+        styles.StyleProperties.Opacity,
+        styles.StyleProperties.ShowBackground,
+        styles.StyleProperties.Visibility
+      ):
+        default_region.set_style(
+          style_prop,
+          doc.get_initial_value(style_prop) if doc.has_initial_value(style_prop) else style_prop.make_initial_value()
+        )
+      default_region_has_background = ISD._region_always_has_background(default_region)
+
     cache = []
 
     for cached_doc in single_regions_docs:
 
       interval_cache = {}
 
-      content_interval = [None, 0]
+      content_interval = [0, None] if default_region_has_background else [None, 0]
 
       # add significant times for regions
 
